@@ -85,7 +85,9 @@ func (s *Stack) Cur() *State {
 const _MaxStackSP = uintptr(MaxStack * StateSize)
 
 func (s *Stack) Push(v State) bool {
-	if uintptr(s.sp) >= _MaxStackSP {
+	// same limit as the JIT encoder's save_state (CMPQ sp+StateSize, StackLimit; JAE too_deep):
+	// both back ends give up at the same nesting depth
+	if uintptr(s.sp)+uintptr(StateSize) >= _MaxStackSP {
 		return false
 	}
 	st := s.Top()
